@@ -106,6 +106,9 @@ class Tree:
         k = r.random()
         if k < 0.6:
             t, v = self.cond()
+            if not on and r.random() < 0.4:
+                # inside an unselected region the expression is not evaluated: it may name macros nobody defined
+                t = r.choice(["NOPE1 == 1", "NOPE2", "!NOPE1", "NOPE1 == NOPE2", "X999 == 0"])
             self.lines.append("#if " + t)
         elif k < 0.8:
             name = r.choice(list(self.defined) + ["NOPE1", "NOPE2"])
@@ -122,6 +125,8 @@ class Tree:
         for _ in range(r.choice([0, 0, 1, 2])):
             # the condition of an #elif is evaluated only if no earlier branch was taken
             t, v2 = self.cond()
+            if (not on or taken) and r.random() < 0.3:
+                t = r.choice(["NOPE1 == 1", "NOPE2", "!NOPE1"])      # not evaluated either: a branch was already taken / region unselected
             self.lines.append("#elif " + t)
             sel = (not taken) and v2
             self.gen_items(on and sel, depth + 1, maxdepth, r.randint(0, 3))
